@@ -21,7 +21,10 @@ Theorem c01_verify_true_means_verified : forall s s',
   checksum_verify s = (s', Ok true) ->
   verified s /\ f_deliv (p_fin (d_p s')) = DATA_COMPLETE /\ f_cond (p_fin (d_p s')) = C_NO_ERROR /\
   fs_d s' = fs_d s /\ p_file_name (d_p s') = p_file_name (d_p s) /\ p_progress (d_p s') = p_progress (d_p s) /\
-  p_crc32 (d_p s') = p_crc32 (d_p s) /\ p_cktype (d_p s') = p_cktype (d_p s) /\ p_md_only (d_p s') = p_md_only (d_p s).
+  p_crc32 (d_p s') = p_crc32 (d_p s) /\ p_cktype (d_p s') = p_cktype (d_p s) /\ p_md_only (d_p s') = p_md_only (d_p s) /\
+  (* (F31 repair) with a real check, no data is known to be missing: the progress reaches the EOF's file size *)
+  (p_md_only (d_p s) = false -> p_cktype (d_p s) <> CK_NULL ->
+   match p_file_size_eof (d_p s) with None => True | Some n => n <= p_progress (d_p s) end).
 Proof. exact verify_true_means_verified. Qed.
 Print Assumptions c01_verify_true_means_verified.
 
